@@ -7,7 +7,7 @@ import json, os, subprocess, sys, glob, time
 V = os.path.dirname(os.path.dirname(os.path.abspath(__file__)))
 REPO = os.environ.get("VERIF_REPO", "/repo")
 ALT = {"C03-4": "C11"}            # caught by another check only
-NEUTRAL = {"C11-2"}               # no longer breaks the property after fix 70def2b
+NEUTRAL = {"C11-2", "C18-6"}      # no longer break the property after fixes 70def2b / ce03bfd
 def main():
     ids = sys.argv[1:] or sorted(os.path.basename(os.path.dirname(p)) for p in glob.glob(V + "/seeded/*/patch.diff"))
     outp = os.path.join(V, "seeded", "sweep_results.json")
